@@ -1117,3 +1117,23 @@ TRUSTED = list(TRUSTED) + [
     "ClassicalDedekindReals.sig_forall_dec, FunctionalExtensionality.functional_extensionality_dep, Classical_Prop.classic (the real-number axioms Flocq and Reals rest on); "
     "every other theorem, the *_partial forms included, is closed under the global context",
 ]
+
+
+# the operator methods are translated WHOLE from /repo on every run and the hand model Model/DurationOps.v is PROVED equal to the translation
+TRUSTED = list(TRUSTED) + [
+    "tools/vlib/pyfloat2gallina.py + tools/vlib/gens/g52_duration_ops_float.py (Python ast -> Gallina, reading rules in the module docstring: one translation of every "
+    "operator method per class of `other` with the isinstance tests decided from that class, `value` dispatch on the operand, self.__class__ read as Duration, "
+    "CPython's int/float typing and conversion points, evaluation order, every raising operation a bind, NotImplemented = RNotImpl; fails closed outside the fragment) "
+    "replace the former trust in the hand ASSEMBLY of Model/DurationOps.v (which branch, which float expression, where ZeroDivisionError / OverflowError arise): "
+    "model_is_code_duration_add / sub / mul / floordiv / truediv / mod / divmod / neg, model_is_code_interval_ops, model_is_code_duration_new_fsec, "
+    "model_is_code_divide_and_round hold for all operands of class exactly Duration / Interval, closed under the global context",
+    "Spec/TdFloatMixed.v: timedelta(days=<int>, seconds=<float>) after CPython's delta_new / accum() (float seconds, integer days, half-even rounding of the left-over into the "
+    "total) and Python's integer // % divmod with ZeroDivisionError; the integer days are PROVED to add exactly (mixed_constructor_days_exact), so the constructor is the "
+    "already validated td_us_of_float_seconds shifted; validated bit for bit through Duration(seconds=x, years=, months=) by the prim-duration_of_float_seconds stream; "
+    "still hand-written CPython primitives: py_as_integer_ratio, py_int_truediv (Model/DurationOps.v, validated by the prim-* streams)",
+]
+LEVEL_NOTE = LEVEL_NOTE + (" Model = code: coq/Gen/DurationOpsFloat.v is translated from duration.py / interval.py on every run (every operator method whole, Duration(seconds=<float>, "
+                           "years=, months=), _divide_and_round on ints and on (int, float), _to_microseconds, _timedelta_to_microseconds, Interval.as_duration and the delegating "
+                           "operators) and Proofs/DurationOpsFloatFacts.v proves each equal to the hand model's dur_method / unop / durlike_method entry for all operands, so a semantic "
+                           "edit of an operator breaks a proof (self-tested by mutation) rather than only a source pin. Inherited from timedelta, hence nothing to translate: __abs__, "
+                           "__rsub__ and the other reflected operators, comparisons, hash (g50 fails closed if Duration starts defining them).")
